@@ -39,9 +39,15 @@ Sch(p, meta, objs) == [SchemaOf(p, objs) EXCEPT !.meta = meta]
 SupportP == <<Obj("p", "Other", TStruct(<<Field("x", TString, TRUE)>>)), Obj("p", "En", EnT),
               Obj("p", "K", TConst("string", VStr("kv"))), Obj("p", "Sc", TString), Obj("p", "Arr", TArray(TString)),
               Obj("p", "KAlias", TRef("p", "K")), Obj("p", "KAlias2", TRef("p", "KAlias")), Obj("p", "KXAlias", TRef("q", "KQ")),
-              Obj("p", "KQ", TString)>>
-SupportQ == <<Obj("q", "QS", TStruct(<<Field("v", TString, TRUE)>>)), Obj("q", "QEn", EnT), Obj("q", "KQ", TConst("string", VStr("kq")))>>
-SupportR == <<Obj("r", "RS", TStruct(<<Field("w", TString, TRUE)>>)), Obj("r", "KR", TConst("int64", VInt("7")))>>
+              Obj("p", "KQ", TString),
+              \* constants that are not non-empty strings; the value keeps the Go type the loader produced (BuildersMC Consts16)
+              Obj("p", "KNum", TConst("float64", VInt("2"))), Obj("p", "KI32", TConst("int32", [t |-> "int", s |-> "5"])),
+              Obj("p", "KF32", TConst("float32", [t |-> "float64", s |-> "1.5"])), Obj("p", "KF32Alias", TRef("p", "KF32")),
+              Obj("p", "KFalse", TConst("bool", VBool(FALSE))), Obj("p", "KZero", TConst("int64", VInt("0"))),
+              Obj("p", "KEmpty", TConst("string", VStr("")))>>
+SupportQ == <<Obj("q", "QS", TStruct(<<Field("v", TString, TRUE)>>)), Obj("q", "QEn", EnT), Obj("q", "KQ", TConst("string", VStr("kq"))),
+              Obj("q", "KU8", TConst("uint8", VInt("3")))>>
+SupportR == <<Obj("r", "RS", TStruct(<<Field("w", TString, TRUE)>>)), Obj("r", "KR", TConst("float64", VInt("7")))>>
 
 (* ============================ mode "chains" ============================ *)
 Pkgs3 == <<"p", "q", "r">>
@@ -118,6 +124,16 @@ BaseTypes == <<
   [n |-> "ref-const-chain2", t |-> TRef("p", "KAlias"), d |-> VNil, c |-> <<>>],
   [n |-> "ref-const-chain3", t |-> TRef("p", "KAlias2"), d |-> VNil, c |-> <<>>],
   [n |-> "ref-const-chain-x", t |-> TRef("p", "KXAlias"), d |-> VNil, c |-> <<>>],
+  [n |-> "ref-const-number-as-int", t |-> TRef("p", "KNum"), d |-> VNil, c |-> <<>>],
+  [n |-> "ref-const-uint8-q", t |-> TRef("q", "KU8"), d |-> VNil, c |-> <<>>],
+  [n |-> "ref-const-float32-alias", t |-> TRef("p", "KF32Alias"), d |-> VNil, c |-> <<>>],
+  [n |-> "ref-const-int32-as-int", t |-> TRef("p", "KI32"), d |-> VNil, c |-> <<>>],
+  [n |-> "ref-const-false", t |-> TRef("p", "KFalse"), d |-> VNil, c |-> <<>>],
+  [n |-> "ref-const-zero", t |-> TRef("p", "KZero"), d |-> VNil, c |-> <<>>],
+  [n |-> "ref-const-empty", t |-> TRef("p", "KEmpty"), d |-> VNil, c |-> <<>>],
+  [n |-> "constant-number-as-int", t |-> TConst("float64", VInt("2")), d |-> VNil, c |-> <<>>],
+  [n |-> "constant-false", t |-> TConst("bool", VBool(FALSE)), d |-> VNil, c |-> <<>>],
+  [n |-> "constant-empty", t |-> TConst("string", VStr("")), d |-> VNil, c |-> <<>>],
   [n |-> "ref-missing", t |-> TRef("p", "Nope"), d |-> VNil, c |-> <<>>],
   [n |-> "ref-unloaded", t |-> TRef("zz", "Nope"), d |-> VNil, c |-> <<>>],
   [n |-> "constref", t |-> TConstRef("p", "En", VStr("a")), d |-> VNil, c |-> <<>>],
@@ -166,6 +182,19 @@ CycleSets == {
 \* returns must be the derivation of the schemas it returns ("as shown by cog inspect --ir builders").  Every struct keeps at
 \* least one option: Rewriter.ApplyTo (run by the pipeline even without veneers) drops builders without options (C17 finding).
 KindRefOrNull == TDisj(<<TRef("p", "Kind"), TNull>>, "", <<>>)
+\* three packages, each with structs written in place (as a field, as the items of an array, as the values of a map): the
+\* language chains that name such structs (Go, Python, Java, PHP) add objects to every package, one package after the other;
+\* r declares a struct under the name the chain gives to p's (PDashOpts); r refers to constants of p that are not strings.
+\* Declared in both orders.
+Pipe3 == <<
+  SchemaOf("p", <<Obj("p", "Dash", TStruct(<<Field("title", TString, TRUE), Field("opts", TStruct(<<Field("a", TString, TRUE)>>), TRUE),
+                                             Field("items", TArray(TStruct(<<Field("n", TString, TRUE)>>)), FALSE)>>)),
+                  Obj("p", "Version", TConst("float64", VInt("2"))), Obj("p", "Level", TConst("uint8", VInt("3")))>>),
+  SchemaOf("q", <<Obj("q", "Panel", TStruct(<<Field("name", TString, TRUE), Field("legend", TStruct(<<Field("show", TScalar("bool"), TRUE)>>), TRUE),
+                                              Field("byName", TMap(TString, TStruct(<<Field("v", TString, TRUE)>>)), FALSE)>>))>>),
+  SchemaOf("r", <<Obj("r", "Row", TStruct(<<Field("id", TString, TRUE), Field("dash", TRef("p", "Dash"), FALSE),
+                                            Field("version", TRef("p", "Version"), TRUE), Field("level", TRef("p", "Level"), TRUE)>>)),
+                  Obj("r", "PDashOpts", TStruct(<<Field("mine", TString, TRUE)>>))>>)>>
 PipeSets == {
   <<SchemaOf("p", <<Obj("p", "Options", TStruct(<<Field("size", TScalar("int64"), TRUE), Field("title", WithDef(TString, VStr("t")), FALSE),
                                                    Field("legend", TRef("p", "Legend"), TRUE), Field("kind", TRef("p", "Kind"), TRUE),
@@ -176,7 +205,8 @@ PipeSets == {
                       Obj("p", "LegendAlias", TRef("p", "Legend"))>>)>>,
   <<SchemaOf("p", <<Obj("p", "Panel", TStruct(<<Field("legend", AsNullable(TRef("q", "Legend")), FALSE), Field("tags", TArray(TString), TRUE),
                                                  Field("inline", TStruct(<<Field("a", TString, TRUE)>>), TRUE)>>))>>),
-    SchemaOf("q", <<Obj("q", "Legend", TStruct(<<Field("placement", TString, TRUE), Field("show", TScalar("bool"), FALSE)>>)), Obj("q", "Internal", TStruct(<<Field("x", TString, TRUE)>>))>>)>>}
+    SchemaOf("q", <<Obj("q", "Legend", TStruct(<<Field("placement", TString, TRUE), Field("show", TScalar("bool"), FALSE)>>)), Obj("q", "Internal", TStruct(<<Field("x", TString, TRUE)>>))>>)>>,
+  Pipe3, <<Pipe3[3], Pipe3[2], Pipe3[1]>>}
 NoC == [given |-> FALSE, c |-> <<>>]
 ORef(p, o) == [pkg |-> p, obj |-> o]
 FRef(p, o, f) == [pkg |-> p, obj |-> o, field |-> f]
@@ -193,7 +223,7 @@ PipeLangs == {"go", "typescript", "python", "java", "php"}
 (* ============================= mode "walk" ============================= *)
 Names == {"Foo", "foo", "FOO", "Bar"}
 WalkPkgs == {"p", "q", "r"}
-RefTargets == {<<"p", "Foo">>, <<"p", "foo">>, <<"q", "Foo">>, <<"q", "FOO">>, <<"r", "Bar">>, <<"p", "Bar">>, <<"p", "Other">>, <<"q", "KQ">>}
+RefTargets == {<<"p", "Foo">>, <<"p", "foo">>, <<"q", "Foo">>, <<"q", "FOO">>, <<"r", "Bar">>, <<"p", "Bar">>, <<"p", "Other">>, <<"q", "KQ">>, <<"r", "KR">>}
 WalkFieldTypes == {TRef(x[1], x[2]) : x \in RefTargets} \cup {AsNullable(TRef(x[1], x[2])) : x \in RefTargets}
                   \cup {TString, TConst("string", VStr("wc")), TArray(TRef("p", "Foo")), TMap(TString, TRef("q", "Foo")),
                         TConstRef("p", "En", VStr("a")), WithDef(TScalarC("string", VNil, <<Con("minLength", VInt("1"))>>), VStr("wd"))}
